@@ -14,6 +14,7 @@ mod automaton;
 mod block;
 mod probe;
 mod real;
+mod semstr;
 mod tok;
 mod walker;
 
